@@ -14,17 +14,27 @@ PATCH=$SRC/patch$K.diff
 rm -rf $WT; git -C /repo worktree add -q --detach $WT HEAD || exit 3
 cd $WT
 res_apply=ok; git apply $PATCH || res_apply=fail
+RECHECK=0; [ "${RECHECK_ONLY:-0}" = "1" ] && [ -f $OUT/meta.json ] && RECHECK=1
+if [ $RECHECK = 1 ]; then
+  # the change was confirmed earlier (meta.json holds the test and demonstration outcome); only the checks run again
+  tests=$(/venv/bin/python -c "import json;print(json.load(open('$OUT/meta.json'))['tests_with_change'])")
+  demo_with=$(/venv/bin/python -c "import json;print(json.load(open('$OUT/meta.json'))['demo_exit_with_change'])")
+  demo_without=$(/venv/bin/python -c "import json;print(json.load(open('$OUT/meta.json'))['demo_exit_without_change'])")
+else
 tests=$(PYTHONPATH=$WT timeout 900 /venv/bin/python -m pytest -q -p no:cacheprovider tests 2>&1 | tail -1)
 # the demonstration runs in the worktree it was written for (some demos assert their own path):
 # that worktree is clean (the sub-agent is finished); apply the patch there, run, and undo
 ORIG=$(dirname $SRC)
 LOCK=/tmp/seedlock_$(basename $ORIG)
 flock $LOCK sh -c "cd $ORIG && git checkout -q -- . && git apply $PATCH && PYTHONPATH=$ORIG timeout 600 /venv/bin/python seed_out/demo$K.py > $WT/demo_with.log 2>&1; rc=\$?; git checkout -q -- .; exit \$rc"; demo_with=$?
+fi
 # run all checks on the changed tree, in parallel
 mkdir -p $WT/chk
 ls /verif/sa/checks | sed -n 's/^\(c[0-9][0-9]\)\.py$/\1/p' | tr a-z A-Z | xargs -P 10 -I{} sh -c "cd /verif && timeout 900 /venv/bin/python sa/run.py {} --repo $WT --scratch > $WT/chk/{}.log 2>&1; echo \$? > $WT/chk/{}.rc"
 git checkout -q -- .
+if [ $RECHECK = 0 ]; then
 flock $LOCK sh -c "cd $ORIG && git checkout -q -- . && PYTHONPATH=$ORIG timeout 600 /venv/bin/python seed_out/demo$K.py > $WT/demo_without.log 2>&1"; demo_without=$?
+fi
 mkdir -p $OUT
 [ -f $OUT/patch.diff ] || cp $SRC/patch$K.diff $OUT/patch.diff; cp $SRC/demo$K.py $OUT/demo.py; cp $SRC/notes$K.md $OUT/notes.md 2>/dev/null
 : > $OUT/checks.txt
@@ -33,9 +43,10 @@ for f in $WT/chk/*.rc; do id=$(basename $f .rc); rc=$(cat $f);
   if [ "$rc" = "1" ]; then fired="$fired $id"; grep -B2 "^VIOLATION" $WT/chk/$id.log | grep -v "^VIOLATION\|witness\|^--" | cut -c1-400 | sed "s/^/$id: /" >> $OUT/checks.txt; fi
   if [ "$rc" = "2" ]; then undec="$undec $id"; grep -E "^UNDECIDED|^ANALYSIS-ERROR" $WT/chk/$id.log | cut -c1-300 | sed "s/^/$id: /" >> $OUT/checks.txt; fi
 done
-tail -3 $WT/demo_with.log | cut -c1-300 > $OUT/demo_with_change.txt
+[ $RECHECK = 0 ] && tail -3 $WT/demo_with.log | cut -c1-300 > $OUT/demo_with_change.txt
 /venv/bin/python - "$P" "$K" "$res_apply" "$tests" "$demo_with" "$demo_without" "$fired" "$undec" "$TAG" <<'PY'
 import json,sys
+from os import environ as _os_env
 P,K,app,tests,dw,dwo,fired,undec,TAG=sys.argv[1:10]
 meta={"property":P,"variant":int(K),"patch_applies":app=="ok","tests_with_change":tests.strip(),
       "demo_exit_with_change":int(dw),"demo_exit_without_change":int(dwo),
@@ -46,6 +57,9 @@ meta={"property":P,"variant":int(K),"patch_applies":app=="ok","tests_with_change
 import re as _re
 _m=_re.search(r"-r(\d+)-",TAG)
 meta["round"]=int(_m.group(1)) if _m else 1
+import subprocess as _sp
+meta["machinery_commit"]=_sp.run(["git","-C","/verif","rev-parse","--short","HEAD"],capture_output=True,text=True).stdout.strip()
+meta["checks_rerun_only"]=_os_env.get("RECHECK_ONLY","0")=="1"
 json.dump(meta,open("/verif/seeded/%s/meta.json"%TAG,"w"),indent=1)
 print(json.dumps(meta))
 PY
